@@ -48,6 +48,20 @@ def handle : List String → String
         | .beyond => "beyond"
       s!"{o} listed={bit listed}"
     | none => "bad-op"
+  | ["dammitf", known, override, user, declared, m, bs] =>
+    match parseMode m with
+    | some mode =>
+      let ks := (splitNE ";" known).map cps
+      let os := (splitNE ";" override).map cps
+      let us := (splitNE ";" user).map cps
+      let d := if declared == "-" then none else some (cps declared)
+      let listed := (ks ++ os ++ us ++ d.toList).all namesListed
+      let o := match unicodeDammitFull ks os us d mode (cps bs) with
+        | .ok u repl enc => s!"ok {showL u} repl={bit repl} enc={match enc with | some e => showL e | none => "none"}"
+        | .failed => "failed"
+        | .beyond => "beyond"
+      s!"{o} listed={bit listed}"
+    | none => "bad-op"
   | ["findcodec", name] =>
     s!"{showOpt (findCodec (cps name))} listed={bit (namesListed (cps name))} carrier={bit ((findCodec (cps name)).any isCarrier)}"
   | ["stripbom", bs] =>
